@@ -154,6 +154,21 @@ pub(crate) struct RcInner<T> {
     state: AtomicU64,
 }
 
+/// Converts the number of owners requested from a bulk constructor to the type of the strong count.
+///
+/// # Panics
+///
+/// Panics if the strong count field cannot represent `count`: a silently truncated count would
+/// let the object be destructed while owners that were handed out are still alive.
+#[inline]
+pub(crate) fn strong_count_of(count: usize) -> u32 {
+    assert!(
+        count as u64 <= STRONG,
+        "too many owners requested for one reference-counted object"
+    );
+    count as u32
+}
+
 impl<T> RcInner<T> {
     #[inline(always)]
     pub(crate) fn alloc(obj: T, init_strong: u32) -> *mut Self {
